@@ -777,8 +777,8 @@ class EncodingParser(object):
             # If the next byte is not an ascii letter either ignore this
             # fragment (possible start tag case) or treat it according to
             # handleOther
+            data.previous()
             if endTag:
-                data.previous()
                 self.handleOther()
             return True
 
